@@ -290,7 +290,7 @@ PROPS['C06'] = dict(
 
 PROPS['C10'] = dict(
     level='exploration', engine='rapidcheck + libFuzzer', run_fn='run_c10', replay_fn='replay_c10',
-    technique='structure-aware fuzzing of well-formed UCI sessions (rapidcheck tapes and coverage-guided libFuzzer over the same tape decoder) with AddressSanitizer / UndefinedBehaviorSanitizer as the oracle',
+    technique='structure-aware fuzzing of well-formed UCI sessions (rapidcheck tapes and coverage-guided libFuzzer over the same tape decoder) with AddressSanitizer / UndefinedBehaviorSanitizer as the oracle; generated exit schedules on a fresh engine object per case; the same generator in record mode feeding the real executable under valgrind memcheck',
     level_text=('Well-formed UCI sessions are decoded from a choice tape (position startpos|fen + oracle-legal moves incl. long legal games of 700-1200 plies, go with depth 1-100 / nodes / movetime / clocks / infinite+stop / searchmoves, '
                 'moves, perft, printboard, hash, staticeval, uci, setoption with generated book files, ucinewgame) and fed to the in-process engine (reader thread + detached search thread) built with ASan + UBSan; '
                 'a deterministic boundary suite (games of 730/799/801/1000 plies, go depth 40..1000, 218 legal moves, 9-10 pieces of a kind, searchmoves with every move) runs first in every shard. Any sanitizer report or crash is a violation.'),
